@@ -27,7 +27,7 @@ CHECKS.update({
 })
 
 CHECKS.update({
-    "C11": ("codec", "differential runtime monitor: h3 encode_stateless/decode_stateless vs an independent RFC 9204 decoder/encoder (three-valued MUST_ACCEPT/MUST_REJECT/DONT_CARE verdict); complete enumeration of 2-byte prefixes and short bodies, grammar-directed mutations",
+    "C11": ("codec", "differential runtime monitor: h3 encode_stateless/decode_stateless vs an independent RFC 9204 decoder/encoder (three-valued MUST_ACCEPT/MUST_REJECT/DONT_CARE verdict); complete enumeration of 2-byte prefixes and short bodies, boundary-value grid for the section prefix integers (up to 2^64-1), grammar-directed mutations; thorough tier adds a libFuzzer+ASan stage (target qpack) and a Miri lite run",
             "Every section h3 emits is decoded by the reference and must give the input list; every byte string fed to h3's decoder is judged by the reference. Complete over all 65536 prefixes and bodies <= 2 B (quick) / <= 3 B (thorough); mutations and random strings sampled. Held-on-observed.",
             "Trusts refimpl/qpack.rs, its static table transcription (cross-checked against h3's by the run itself) and octets' Huffman decoder; RIC 0 with positive Base and >62-bit integers are don't-care; two known findings inherited from the Huffman decoder.",
             "DESIGN.md §4 C11"),
@@ -38,7 +38,7 @@ CHECKS.update({
             "Real h3 client and server exchange generated well-formed messages over the simulated transport; every API result on the receiving side is compared with what the sender was given, every call must return and nothing may be pending at quiescence, every stream's bytes are parsed by the reference. Thousands of (message, chunking, schedule) combinations per run; held-on-observed.",
             "Trusts the simulator's transport contract (DESIGN.md §1) and the reference parser; inputs limited to what the http crate does not normalise.",
             "DESIGN.md §4 C01"),
-    "C02": ("codec", "differential runtime monitor: h3::frame::FrameStream driven the documented way over a scripted RecvStream vs the reference segmenter, for ALL chunkings of short strings (complete enumeration of frame shapes x varint forms x truncations) and sampled chunkings of long ones; chunking-independence cross-check",
+    "C02": ("codec", "differential runtime monitor: h3::frame::FrameStream driven the documented way over a scripted RecvStream vs the reference segmenter, for ALL chunkings of short strings (complete enumeration of frame shapes x varint forms x truncations) and sampled chunkings of long ones; chunking-independence cross-check; thorough tier adds a libFuzzer+ASan stage (target frames) and a Miri lite run",
             "For every (byte string, ending, chunking) executed the event sequence (frames, DATA bytes, terminal status and error code) must equal the reference's and be the same for every chunking. Single frames with all varint forms and all pairs with minimal forms are enumerated completely, strings up to 9 B (quick) / 12 B (thorough) are cut in all 2^(n-1) ways. Held-on-observed.",
             "Trusts refimpl/frames.rs; error codes are taken from h3's own mapping functions; documented don't-care zones (overlapping rules, early detection) accept several codes.",
             "DESIGN.md §4 C02"),
@@ -53,7 +53,7 @@ CHECKS.update({
 
 CHECKS.update({
     "C10": ("simquic+sched", "size-oracle runtime monitor: a raw peer sends/advertises exact RFC 9114 §4.2.2 sizes (reference encoder) around every limit; accept/refuse decisions, 431 behaviour and the sizes of HEADERS frames h3 writes (reference decoder) are compared with the oracle",
-            "The grid limits x (L-2..L+2) x field counts x {request, response, trailers} x {receive, send} x roles x {SETTINGS applied, never delivered} is run completely plus random sizes; every decision must equal s <= L and no oversized HEADERS may reach the wire. Held-on-observed.",
+            "The grid limits x (L-2..L+2) x field counts x {request, response, trailers} x {receive, send} x roles x {SETTINGS applied, never delivered, arriving between stream creation and the send} x {whole, split stream} is run plus random sizes; every decision must equal s <= L and no oversized HEADERS may reach the wire. Held-on-observed.",
             "Trusts refimpl/qpack.rs for sizes; SETTINGS timing made deterministic by two phases; sizes above ~70 KB not constructed.",
             "DESIGN.md §4 C10"),
     "C12": ("simquic+sched", "three-valued reference-predicate runtime monitor (MUST_REJECT / MUST_ACCEPT / DONT_CARE) over generated field lists, checked against h3's header validation directly and end to end through a raw peer; wire-order monitor for sent HEADERS",
@@ -78,14 +78,14 @@ CHECKS.update({
 })
 
 CHECKS.update({
-    "C06": ("simquic+sched", "panic catcher around every poll + quiescence-based hang oracle over adversarial peer scripts (bytecode shared with the fuzz target): faults injected at every step index of every scenario skeleton, grammar- and byte-level mutations, random scripts; both roles, whole and split streams",
+    "C06": ("simquic+sched", "panic catcher around every poll + quiescence-based hang oracle over adversarial peer scripts (bytecode shared with the fuzz target): faults injected at every step index of every scenario skeleton, grammar- and byte-level mutations, random scripts, validly encoded but field-level hostile sections; both roles, whole and split streams; spin detector (busy loop inside one poll), step cap as bounded-progress verdict; thorough tier adds a libFuzzer+ASan stage (target peer_script) and Miri/ASan lite runs",
             "Tens of thousands of hostile scripts per run; every poll of every h3 future runs under catch_unwind with overflow checks and debug assertions on; at quiescence no call may wait on a stream the peer already finished/reset/stopped, and after the peer's connection close no h3 future may be pending. FIN/RESET/STOP_SENDING/close are injected at every step index of all 192 skeletons (complete). Held-on-observed.",
             "Trusts the simulator's quiescence detection and the applications of sim/apps.rs as 'documented call pattern'.",
             "DESIGN.md §4 C06"),
 })
 
 CHECKS.update({
-    "C07": ("simquic+sched", "fault-confinement runtime monitor: 2..4 concurrent requests with a faulty subset (RESET at offset classes, STOP_SENDING, malformed message, oversized section, FIN before HEADERS) against raw peers and between real endpoints; per-stream error class/code oracle + C01 equality oracle on every healthy neighbour + no-close / driver-alive checks",
+    "C07": ("simquic+sched", "fault-confinement runtime monitor: 2..4 concurrent requests with a faulty subset (RESET at offset classes, STOP_SENDING, malformed message, oversized section, FIN before HEADERS) against raw peers and between real endpoints; per-stream error class/code oracle, wire-signal oracle (which RESET_STREAM / STOP_SENDING code the peer sees) + C01 equality oracle on every healthy neighbour + no-close / driver-alive checks; applications with think time",
             "Thousands of connections per run over three set-ups with PRNG schedules; every failing call on a faulty stream must be the stream-level class with the peer's code, no connection error or close may occur, and every healthy neighbour must deliver exactly its own message and complete. Held-on-observed.",
             "Trusts the reference codec and simulator; a client seeing FIN before HEADERS is don't-care; RESET may overtake data.",
             "DESIGN.md §4 C07"),
@@ -107,11 +107,11 @@ CHECKS.update({
 })
 
 CHECKS.update({
-    "C17": ("quinnrig", "byte-conservation / identifier / error-mapping runtime monitor over real Quinn loopback connections: the h3_quinn adapter is driven through the h3::quic traits against a raw quinn peer with flow-control windows swept from 1 byte to 1 MiB (arbitrary partial writes), premature second writes, an id-query state matrix incl. pending and abandoned reads, peer close/reset/stop/timeout with code sets; optional AddressSanitizer build",
+    "C17": ("quinnrig", "byte-conservation / identifier / error-mapping runtime monitor over real Quinn loopback connections: the h3_quinn adapter is driven through the h3::quic traits against a raw quinn peer with flow-control windows swept from 1 byte to 1 MiB (arbitrary partial writes), premature second writes, an id-query state matrix incl. pending and abandoned reads, peer close/reset/stop/timeout with code sets; unframed writes (poll_send) for conservation and error classes; AddressSanitizer build in the thorough tier",
             "66 (quick) / ~3000 (thorough) real connections; the raw peer's received byte string must equal the reference-encoded frames of every accepted send_data exactly once and in order, premature writes must be refused, send_id/recv_id must equal Quinn's id in all 14 read/write states without panicking, and peer conditions must map to the right h3 error class with the code preserved. Wall-clock is a watchdog only (inconclusive). Held-on-observed.",
             "Real sockets: evaluation counts vary slightly between runs; scenarios hit by Quinn/loopback trouble are discarded (inconclusive above 2 %); trusts quinn 0.11's own ids and the reference frame encoder.",
             "DESIGN.md §4 C17"),
-    "C19": ("simquic+sched", "session-id / wire-header / payload equality runtime monitor for WebTransport: a raw client establishes sessions on CONNECT streams with 1-, 2-, 4- and 8-byte ids, sends WebTransport streams with every cut position through the stream header and first payload bytes, and reads what the server opens; three read APIs",
+    "C19": ("simquic+sched", "session-id / wire-header / payload equality runtime monitor for WebTransport: a raw client establishes sessions on CONNECT streams with 1-, 2-, 4- and 8-byte ids, sends WebTransport streams with every cut position through the stream header and first payload bytes, and reads what the server opens; four read APIs (poll_data, futures AsyncRead, tokio AsyncRead, split + poll_data)",
             "Every cut of header+payload for short payloads is enumerated (complete) for all ids x {bidi, uni} x {poll_data, futures AsyncRead, tokio AsyncRead}; thousands of random sessions besides; session ids at the API and on the wire must equal the CONNECT stream id and payloads must arrive intact; disabled extension must surface nothing. Held-on-observed.",
             "Raw client's SETTINGS applied before the CONNECT (two phases); WebTransport streams released after the session exists.",
             "DESIGN.md §4 C19"),
@@ -119,7 +119,7 @@ CHECKS.update({
 
 CHECKS.update({
     "C05": ("racerig", "forced-schedule runtime monitor on real OS threads: cfg-guarded pre-emption hooks park the driver poll and 1..3 error-raising handle calls at individual shared-state operations and ALL orderings of the hook-delimited segments are executed (depth-first enumeration for full driver polls); plus free-running iterations; oracles: first-stored error wins, single effective close with the winner's code, every later call reports the winner, no lost wake-up; ThreadSanitizer and Miri many-seeds as add-ons",
-            "Every ordering of the segments for k = 1, 2 (quick) and 3 (thorough) stream actors x 32 scenario shapes x 7 error kinds is executed (complete at hook granularity), 2*10^4 / 10^6 free-running iterations besides; the controller totally orders the events and reads the error cell as ground truth. Held-on-observed at that granularity.",
+            "Every ordering of the segments for k = 1, 2 (quick) and 3 (thorough) stream actors x 32 scenario shapes x 11 error kinds (7 detected by h3, 4 reported by the transport on one stream) is executed (complete at hook granularity), 2*10^4 / 10^6 free-running iterations besides; the controller totally orders the events and reads the error cell as ground truth. Held-on-observed at that granularity.",
             "Interleavings are explored at the granularity of the five hook points (the only cross-thread shared state is SharedState); one driver task = one waker; close reason text is recorded, not judged; a 20 s no-progress watchdog makes the run inconclusive, never a violation.",
             "DESIGN.md §4 C05"),
 })
@@ -175,7 +175,7 @@ def main():
         ],
         "checks": checks,
         "not_applicable": na,
-        "notes": "All checks are runtime monitors over executions of the real code (see DESIGN.md). Exit 2 + INCONCLUSIVE line = build failure / watchdog / coverage floor not reached (never folded into held or violated).",
+        "notes": "All checks are runtime monitors over executions of the real code (see DESIGN.md, section 9 for what was built). Exit 2 + INCONCLUSIVE line = build failure / wall-clock watchdog / coverage floor not reached (never folded into held or violated). Liveness is decided in logical units only (quiescence, transport calls per poll, scheduler step caps 20-100x the largest observed run). Known findings: known_findings.json (KNOWN-FINDING lines, exit 0). Seeded changes used to test the monitors: seeded/ (DESIGN.md 9.6).",
     }
     with open(os.path.join(ROOT, "MANIFEST.json"), "w") as f:
         json.dump(m, f, indent=1)
